@@ -188,46 +188,62 @@ def Extremum.merge (op : K → K → K) (s o : Extremum K) : Extremum K :=
   | none, b => ⟨b, s.n + o.n⟩
 end
 
-/-! ### Repaired merges for the moment accumulators: an empty operand is neutral
-    (the Python after the `fix:` commit tests `other.n == 0` / `self.n == 0`). -/
+/-! ### Merges after the `fix:` commits: the only change against `mergeRaw` is the
+    guard `if ntot == 0: return` (two empty operands); an empty operand on one
+    side is handled by the pooled formula itself (weight 0). -/
 section
 variable {K : Type} [Add K] [Sub K] [Mul K] [Div K] [NatCast K]
 
 def Mean.merge (s o : Mean K) : Mean K :=
-  if o.n = 0 then s
-  else if s.n = 0 then o
-  else
-    let ntot := s.n + o.n
-    ⟨s.val * ((s.n : K) / (ntot : K)) + o.val * ((o.n : K) / (ntot : K)), ntot⟩
+  let ntot := s.n + o.n
+  if ntot = 0 then s
+  else ⟨s.val * ((s.n : K) / (ntot : K)) + o.val * ((o.n : K) / (ntot : K)), ntot⟩
 
 def Variance.merge (s o : Variance K) : Variance K :=
-  if o.n = 0 then s
-  else if s.n = 0 then o
+  let dmean := s.mean.val - o.mean.val
+  let newn := s.n + o.n
+  if newn = 0 then s
   else
-    let dmean := s.mean.val - o.mean.val
-    let newn := s.n + o.n
     let newvar := s.var.sum + o.var.sum + dmean * dmean * (s.n : K) * (o.n : K) / (newn : K)
     ⟨s.mean.merge o.mean, ⟨newvar / (newn : K), newn⟩⟩
 
 def Cov2.merge (s o : Cov2 K) : Cov2 K :=
-  if o.mx.n = 0 then s
-  else if s.mx.n = 0 then o
+  let dx := s.mx.val - o.mx.val
+  let dy := s.my.val - o.my.val
+  let newn := s.mx.n + o.mx.n
+  if newn = 0 then s
   else
-    let dx := s.mx.val - o.mx.val
-    let dy := s.my.val - o.my.val
-    let newn := s.mx.n + o.mx.n
     let newvar := s.c.sum + o.c.sum + dx * dy * (s.mx.n : K) * (o.mx.n : K) / (newn : K)
     ⟨s.mx.merge o.mx, s.my.merge o.my, ⟨newvar / (newn : K), newn⟩⟩
 
 def Covariance.merge (s o : Covariance K) : Covariance K :=
-  if o.n = 0 then s
-  else if s.n = 0 then o
+  let dmean := s.mean.val - o.mean.val
+  let newn := s.n + o.n
+  if newn = 0 then s
   else
-    let dmean := s.mean.val - o.mean.val
-    let newn := s.n + o.n
     let newvar := s.cov.sum + o.cov.sum
         + Val.outer dmean dmean * ((s.n : Nat) : Val K) * ((o.n : Nat) : Val K) / ((newn : Nat) : Val K)
     ⟨s.mean.merge o.mean, ⟨newvar / ((newn : Nat) : Val K), newn⟩⟩
 end
+
+/-! ### Which accumulator kinds can absorb an accumulator of their own kind
+    (accumulators.py: only the classes that define `_accumulate_other`). -/
+inductive AccKind where
+  | counter | minimum | maximum | mean | variance | covariance
+  | runningMean | runningVariance | runningCovariance
+  | cacheAccumulator | cacheMaximum
+  | reservoirSampling | cdfEstimator | quantileEstimator | medianEstimator
+  | binSorter | dynamicBinSorter
+  deriving DecidableEq, Repr
+
+def AccKind.mergeable : AccKind → Bool
+  | .counter | .minimum | .maximum | .mean | .variance | .covariance
+  | .cacheAccumulator | .cacheMaximum => true
+  | _ => false
+
+/-- `accumulate(other)` with `other` of the receiver's own class, for a kind without
+    `_accumulate_other`: `NotImplementedError`, receiver unchanged. -/
+def AccKind.mergeOutcome {σ : Type} (k : AccKind) (merge : σ → σ → σ) (s o : σ) : Except PyErr σ × σ :=
+  if k.mergeable then (.ok (merge s o), merge s o) else (.error .notImplemented, s)
 
 end Gpv
